@@ -76,8 +76,14 @@ def audit():
 
 def build():
     r = subprocess.run([os.path.join(ROOT, 'harness', 'build.sh'), 'all'], capture_output=True, text=True)
+    if r.returncode == 3:
+        # some file of the development does not compile; the extraction does. The theorems of the property
+        # under check are re-compiled separately (check_theorems) and fail there if they are affected.
+        log('WARNING: partial Coq build:\n' + r.stdout[-1500:])
+        return False
     if r.returncode != 0:
         raise MachineryError('build failed:\n' + r.stdout + r.stderr)
+    return True
 
 
 def check_theorems(props_file):
